@@ -98,6 +98,15 @@ termination_by structural conn
 def readMessage (chunk : Bytes) (conn : List Bytes) : Outcome :=
   loop chunk Hs.headerLen conn chunk.length 0
 
+/-- big-endian 32-bit encoding, `binary.BigEndian.PutUint32` -/
+def be32enc (n : Nat) : Bytes :=
+  [UInt8.ofNat (n / 16777216 % 256), UInt8.ofNat (n / 65536 % 256), UInt8.ofNat (n / 256 % 256), UInt8.ofNat (n % 256)]
+
+/-- net/handshake/handshake.go writeMessage: `buf.B[0] = magic; buf.B[1] = version; PutUint32(buf.B[2:6], len(payload))`
+    followed by the EDF payload -/
+def frame (p : Bytes) : Bytes :=
+  UInt8.ofNat Hs.handshakeMagic :: UInt8.ofNat Hs.handshakeVersion :: (be32enc p.length ++ p)
+
 /-- Time. `readMessage` arms a fresh read deadline of `timeout` before EVERY `conn.Read`
     (`conn.SetReadDeadline(time.Now().Add(timeout))` inside the loop). If the i-th read returns after
     `delays[i]` (a read that would take longer fails at the deadline), the time spent in the first `n`
